@@ -172,14 +172,28 @@ func (e *envT) describe(st *wstate) map[string]interface{} {
 
 // step restores preSnap into w, runs o (under server fault `fault`, "" = none) and evaluates the oracle.
 func (e *envT) step(w *worker, pre *wstate, preSnap snap, o opDef, fault string, where string) (so stepOut) {
+	return e.stepX(w, pre, preSnap, o, fault, nil, where)
+}
+
+// stepX is step with an optional fault-sequence controller sq: every answer of the server to a batch / storage PUT /
+// verify request is then a choice point of the running execution (see c03_seq_verif_test.go); the fault class handed
+// to the oracle is derived from the faulty answers actually given.
+func (e *envT) stepX(w *worker, pre *wstate, preSnap snap, o opDef, fault string, sq *seqCtl, where string) (so stepOut) {
 	so = stepOut{counters: map[string]int64{}, fault: fault}
 	var res gitx.Res
 	var enabled bool
 	// a command that hits the tool timeout (an overloaded machine stalls processes for minutes) is re-executed from
 	// the same pre-state: a transition is a deterministic function of (state, operation, fault)
-	for attempt := 0; attempt < 3; attempt++ {
+	attempts := 3
+	if sq != nil {
+		attempts = 1 // the choice points taken so far belong to this execution: no silent re-execution
+	}
+	for attempt := 0; attempt < attempts; attempt++ {
 		restore(preSnap, w.R)
 		w.loadServers(pre, fault)
+		if sq != nil {
+			w.installSeq(sq)
+		}
 		t0 := time.Now()
 		res, enabled = e.apply(w, pre, o)
 		so.opDur = time.Since(t0)
@@ -198,6 +212,11 @@ func (e *envT) step(w *worker, pre *wstate, preSnap snap, o opDef, fault string,
 		return so
 	}
 	so.snap = capture(w.R)
+	if sq != nil {
+		w.fault.set("") // no further answers are scripted
+		fault = sq.class()
+		so.fault = fault
+	}
 	srv, puts, batches := w.readServers()
 	so.post = digest(so.snap, srv)
 	so.puts, so.batches = puts, batches
@@ -895,23 +914,33 @@ func newEnv(c *vx.Check) *envT {
 	}
 	e.pool = make(chan *worker, n)
 	for i := 0; i < n; i++ {
-		root := filepath.Join(e.scratch, fmt.Sprintf("w%02d", i))
-		home := filepath.Join(root, "home")
-		os.MkdirAll(home, 0755)
-		if err := os.WriteFile(filepath.Join(home, ".gitconfig"), []byte(globalCfg), 0644); err != nil {
-			panic(vx.ToolError{Msg: err.Error()})
-		}
-		fc := &faultCtl{putSeen: map[string]int{}}
-		w := &worker{World: &gitx.World{Root: root, Home: home, BinDir: e.binDir}, R: filepath.Join(root, "r"), fault: fc}
-		w.srv[0], w.srv[1] = newServer(fc), newServer(fc)
-		// the LFS endpoints are worker specific (ports): passed through the environment, never stored in a snapshot
-		w.Extra = []string{"TMPDIR=" + filepath.Join(e.scratch, "tmp"), "GIT_CEILING_DIRECTORIES=" + root,
-			"GIT_CONFIG_COUNT=2",
-			"GIT_CONFIG_KEY_0=remote.origin.lfsurl", "GIT_CONFIG_VALUE_0=" + w.srv[0].URL + "/origin",
-			"GIT_CONFIG_KEY_1=remote.other.lfsurl", "GIT_CONFIG_VALUE_1=" + w.srv[1].URL + "/other"}
-		e.pool <- w
+		e.pool <- e.newWorker(fmt.Sprintf("w%02d", i))
+	}
+	// the fault-sequence executions spend most of their time waiting (Retry-After, back-off of the client): they get their
+	// own, larger set of worker worlds (HTTP transport only)
+	e.seqPool = make(chan *worker, 2*n)
+	for i := 0; i < 2*n; i++ {
+		e.seqPool <- e.newWorker(fmt.Sprintf("s%02d", i))
 	}
 	return e
+}
+
+func (e *envT) newWorker(name string) *worker {
+	root := filepath.Join(e.scratch, name)
+	home := filepath.Join(root, "home")
+	os.MkdirAll(home, 0755)
+	if err := os.WriteFile(filepath.Join(home, ".gitconfig"), []byte(globalCfg), 0644); err != nil {
+		panic(vx.ToolError{Msg: err.Error()})
+	}
+	fc := &faultCtl{putSeen: map[string]int{}}
+	w := &worker{World: &gitx.World{Root: root, Home: home, BinDir: e.binDir}, R: filepath.Join(root, "r"), fault: fc}
+	w.srv[0], w.srv[1] = newServer(fc), newServer(fc)
+	// the LFS endpoints are worker specific (ports): passed through the environment, never stored in a snapshot
+	w.Extra = []string{"TMPDIR=" + filepath.Join(e.scratch, "tmp"), "GIT_CEILING_DIRECTORIES=" + root,
+		"GIT_CONFIG_COUNT=2",
+		"GIT_CONFIG_KEY_0=remote.origin.lfsurl", "GIT_CONFIG_VALUE_0=" + w.srv[0].URL + "/origin",
+		"GIT_CONFIG_KEY_1=remote.other.lfsurl", "GIT_CONFIG_VALUE_1=" + w.srv[1].URL + "/other"}
+	return w
 }
 
 // fileEnv returns the environment entries for the file:// transport (no LFS URL configured at all).
@@ -1134,6 +1163,9 @@ func (e *envT) scenarios() []*scenario {
 	}
 	e.mkInits(graphs, baseHTTP, gi)
 
+	// faultseq: sequences of faulty server answers over the request stream of designated pushes (vx explorer, not BFS)
+	e.seq = e.mkSeqScenario(baseHTTP)
+
 	if e.thorough {
 		// wide: the full thorough alphabet (octopus, batch sizes 1/2, fetch --prune, another client pushing, ...) to depth 3
 		wide := &scenario{Name: "wide", Depth: 3, FaultDepth: 2, Faults: faults, Weight: 2}
@@ -1200,7 +1232,11 @@ func TestVerifC03(t *testing.T) {
 		"States are deduplicated by a canonical key: HEAD + every ref of the local repository (incl. remote-tracking) and of each bare remote with its object id " +
 		"(commit ids are content signatures here: fixed identities/dates/messages make them a function of graph shape and blob contents) + local LFS store + server object sets + work-tree files + lfs.allowincompletepush. " +
 		"On designated pushes that upload something, the same transition is re-run under each scripted server fault (deviation bound 1: one faulty push, terminal). " +
-		"A case = (state, push operation, fault); it is non-trivial when the pushed range references at least one LFS object or something was uploaded; distinct = distinct (canonical state key, operation, fault)."
+		"A case = (state, push operation, fault); it is non-trivial when the pushed range references at least one LFS object or something was uploaded; distinct = distinct (canonical state key, operation, fault). " +
+		"Scenario faultseq (not BFS): on a few designated pushes (one new object / two new objects, pre-push hook and `git lfs push`, with and without a verify callback, lfs.transfer.maxretries 1 or 2) every answer of the LFS server " +
+		"to a batch request, a storage PUT or a verify callback is a choice point (nominal answer, or one of: batch 429 with Retry-After 1 / 429 / 500 / 503 / connection reset; PUT 500 / 503 / 429 / 429 with Retry-After 1 / connection cut after the body; " +
+		"verify 500 with the upload kept / discarded); stateless DFS enumerates every answer script with at most F faulty answers placed among the first K requests of the push (the stream depends on the earlier answers: children are derived from the stream an execution produced); " +
+		"a case there = (designated push, answer script), every one distinct and non-trivial; same oracle."
 	c.Assumptions = []string{
 		"P1 (git push): for every commit in `rev-list <remote refs after> --not <remote refs before>` (computed in the bare remote), every blob that is a spec pointer (strict decoder written from docs/spec.md, incl. extension lines; read with ls-tree/cat-file) names an object stored on that remote's LFS server whose bytes hash to the oid. Demanded whenever refs of the remote changed (a ref that was updated is a push that succeeded for that ref), whatever the exit code of git.",
 		"P1 exemption: with lfs.allowincompletepush=true, an object that before the push was neither validly in the local store nor on the server is not demanded.",
@@ -1210,6 +1246,7 @@ func TestVerifC03(t *testing.T) {
 		"Another client is modelled as a correct client acting directly on the bare remote: it only moves branches to commits whose objects are on the server, or uploads its object before pushing.",
 		"Commits are built with git plumbing (hash-object, mktree, commit-tree, update-ref) and the LFS objects are placed into .git/lfs/objects as the clean filter would; at start the harness checks that its pointer texts equal the output of the real `git lfs clean`, that `git lfs pointer --check` accepts the 1023-byte pointer and that `git lfs update` installed the pre-push hook. The work tree contains only files written by the rm-object variants.",
 		"Remotes are local paths (git's own transport is not the subject); the LFS leg is real HTTP to loopback servers, or the standalone file transfer for file:// remotes (scenario 'file').",
+		"Scenario faultseq: the fake server answers the n-th request of the push as scripted, whatever that request is; transfers are sequential (lfs.concurrenttransfers=1) and the client's activity time-out is off, so with one object the request stream is a function of the answers (a deviation is a tool error). With two objects that both wait for a retry, git-lfs re-batches them together or one after the other depending on wall-clock timing (tq.batch.Concat): those executions are valid executions, counted as stream_regrouped_by_client_timing, and the enumeration is exhaustive over the streams observed. Not enumerated: request time-outs as a fault (would make the harness depend on timing).",
 		"Timeouts (120 s per command) are tool guards => inconclusive, never violations. lfs.transfer.maxretries=2, maxretrydelay=1 and lfs.locksverify=false are set to keep fault probes short and to leave locking to C16.",
 	}
 	c.Bounds["tier"] = c.Tier
@@ -1225,11 +1262,25 @@ func TestVerifC03(t *testing.T) {
 			"fault_probes_at_positions_below": p.FaultDepth, "faults": p.Faults, "file_transport": p.FileMode}
 	}
 
+	c.Bounds["scenario_"+e.seq.Name] = e.seq.bounds()
+
 	if c.Replay != "" {
 		rf, err := c.LoadReplay()
 		if err != nil {
 			fmt.Printf("TOOL-ERROR property=C03 cannot load replay: %v\n", err)
 			os.Exit(2)
+		}
+		if rf.Scenario == e.seq.Name {
+			if rf.Tier != c.Tier {
+				fmt.Printf("TOOL-ERROR property=C03 replay file was recorded with --tier %s; re-run with that tier\n", rf.Tier)
+				os.Exit(2)
+			}
+			exec := e.seqExec(e.seq)
+			r := exec(rf.Prefix)
+			st := vx.NewStats()
+			st.Absorb(rf.Prefix, &r, 0)
+			fmt.Printf("replayed [%s]: %v\n", e.seq.Name, r.Sample)
+			os.Exit(c.Finish([]vx.Part{{Scenario: e.seq.Name, Stats: st, Exec: exec}}, nil))
 		}
 		for _, p := range append([]*scenario{e.initSc[false], e.initSc[true]}, parts...) {
 			if p != nil && p.Name == rf.Scenario {
@@ -1271,6 +1322,23 @@ func TestVerifC03(t *testing.T) {
 		run = append(run, p)
 	}
 	globalDeadline := deadline
+	var seqInfo map[string]interface{}
+	if only == "" || strings.HasPrefix(e.seq.Name, only) {
+		// the fault-sequence exploration runs first, on all workers, with at most a third of the time budget
+		t0 := time.Now()
+		e.fileMode = false
+		st := e.seqExplore(e.seq, t0.Add(time.Until(globalDeadline)/3))
+		dh := map[string]int64{}
+		for k, v := range st.DevHist {
+			dh[fmt.Sprint(k)] = v
+		}
+		seqInfo = map[string]interface{}{"scenario": e.seq.Name, "designated_pushes": len(e.seq.Cases), "executions": st.Executions,
+			"executions_by_number_of_faulty_answers": dh, "distinct_fault_scripts": len(st.NonTrivial), "distinct_outcomes": len(st.Outcomes),
+			"exhaustive": st.Exhaustive, "wall_s": time.Since(t0).Seconds()}
+		fmt.Printf("scenario %-11s pushes=%d faults<=%d among first %d requests: executions=%d by #faults=%v distinct outcomes=%d exhaustive=%v wall=%.1fs\n", e.seq.Name,
+			len(e.seq.Cases), e.seq.F, e.seq.K, st.Executions, dh, len(st.Outcomes), st.Exhaustive, time.Since(t0).Seconds())
+		vparts = append(vparts, vx.Part{Scenario: e.seq.Name, Stats: st, Exec: e.seqExec(e.seq)})
+	}
 	for _, p := range run {
 		p := p
 		// every scenario gets its share of what is left, so that an overloaded machine cuts all of them at some
@@ -1303,7 +1371,11 @@ func TestVerifC03(t *testing.T) {
 	var rs syscall.Rusage
 	syscall.Getrusage(syscall.RUSAGE_SELF, &rs)
 	fmt.Printf("cpu of child processes (git, git-lfs): %.1fs; harness itself: %.1fs\n", cpu, float64(rs.Utime.Sec+rs.Stime.Sec))
-	os.Exit(c.Finish(vparts, map[string]interface{}{"bfs": infos, "max_depth": maxDepth(infos), "child_process_cpu_s": cpu}))
+	extra := map[string]interface{}{"bfs": infos, "max_depth": maxDepth(infos), "child_process_cpu_s": cpu}
+	if seqInfo != nil {
+		extra["fault_sequences"] = seqInfo
+	}
+	os.Exit(c.Finish(vparts, extra))
 }
 
 // execFor: stateless re-execution of one case of scenario p (used to confirm violations and for --replay).
